@@ -28,6 +28,17 @@ Fixpoint has_deny (obs : list Z) : bool :=
 Fixpoint has_gap_ge (r : Z) (ops : list lop) : bool :=
   match ops with [] => false | LAdvance dt :: t => (r <=? dt) || has_gap_ge r t | _ :: t => has_gap_ge r t end.
 
+(* "a new client starts with a full burst" and isolation, on the implementation's trace alone: tokens only ever grow back, and a
+   bucket dropped by the clean-up is a full one again, so the first max_tokens requests of every client are admitted whatever
+   any other client did.  seen: number of requests of each client so far. *)
+Fixpoint first_burst_ok (maxt : Z) (seen : list (Z * Z)) (evs : list event) : bool :=
+  match evs with
+  | [] => true
+  | (_, c, ok) :: t =>
+      let n := match lookup c seen with Some n => n | None => 0 end in
+      (if n <? maxt then ok else true) && first_burst_ok maxt (update c (n + 1) seen) t
+  end.
+
 (* result vector:
    [ first mismatch index (-1 = model and implementation agree);
      window monitor on the implementation trace; burst monitor on the implementation trace;
@@ -42,4 +53,5 @@ Definition eval_lim_case (k : lim_case) : list Z :=
     b2z (windows_ok cfg evs);
     b2z (bursts_ok cfg evs);
     b2z ((cleanup_age cfg <? lmax cfg * lrate cfg) && has_cleanup (lc_ops k));
-    b2z (has_deny (lc_obs k) && (has_gap_ge (lc_rate k) (lc_ops k) || has_cleanup (lc_ops k))) ].
+    b2z (has_deny (lc_obs k) && (has_gap_ge (lc_rate k) (lc_ops k) || has_cleanup (lc_ops k)));
+    b2z (first_burst_ok (lc_max k) [] evs) ].
